@@ -77,6 +77,7 @@ type OpRec struct {
 
 // World ties the client under test to the simulated environment.
 type World struct {
+	sharedScanOpts  []func(hrpc.Call) error
 	filterOpt       func(hrpc.Call) error
 	Env             *Env
 	Plan            *Plan
@@ -574,6 +575,9 @@ func (w *World) runScan(rec *OpRec) {
 	if op.Prio > 0 {
 		opts = append(opts, hrpc.Priority(op.Prio))
 	}
+	if op.SharedOpts {
+		opts = w.sharedScanOpts
+	}
 	s, err := hrpc.NewScanRange(rec.ctx, tableBytes(op.Table), op.Start, op.Stop, opts...)
 	if err != nil {
 		panic(err)
@@ -695,5 +699,14 @@ var _ = hb.TypePut
 
 // pageAll is the page size of the shared scan filter: large enough to let every row pass.
 const pageAll = int64(1) << 40
+
+// sharedNonce tags the scans that are created from the shared options slice.
+const sharedNonce = 960001
+
+// newSharedScanOpts returns an options slice with spare capacity.
+func newSharedScanOpts() []func(hrpc.Call) error {
+	o := make([]func(hrpc.Call) error, 0, 4)
+	return append(o, hrpc.TimeRangeUint64(sharedNonce, hrpc.MaxTimestamp), hrpc.NumberOfRows(2))
+}
 
 func newFilterOpt() func(hrpc.Call) error { return hrpc.Filters(filter.NewPageFilter(pageAll)) }
